@@ -282,8 +282,8 @@ EnumTA ==
        LET c == TACase(<<ENewArr(kd, vals), EJoin(1, s), EToStr(1)>>)
        IN TA!EvOK(c.evs[2], RunTA(c.evs, 1, TA!EmptyTS)) /\ Emit(c)
 EnumRW == \E g \in RWGrid(Quick) : RWOk(g) /\ Emit([ty |-> "ta", evs |-> RWEvs(g), fam |-> "rw"])
-Parts == IF "C17_PARTS" \in DOMAIN IOEnv THEN IOEnv.C17_PARTS ELSE "all"          \* development switch: "rw" = this family only
-EnumNext == ph = "start" /\ (IF Parts = "rw" THEN EnumRW ELSE (EnumPlain \/ EnumCallbacks \/ EnumSort \/ EnumTA \/ EnumRW))
+Parts == IF "C17_PARTS" \in DOMAIN IOEnv THEN IOEnv.C17_PARTS ELSE "all"          \* development switch: anything but "all" = this family only
+EnumNext == ph = "start" /\ (IF Parts # "all" THEN EnumRW ELSE (EnumPlain \/ EnumCallbacks \/ EnumSort \/ EnumTA \/ EnumRW))
 EnumEmit == ph = "start" \/ PrintT(ToJson(cur))
 
 \* ---------------- Laws of the references (INVARIANT LawsHold in the Enum configuration) ------------------
@@ -513,11 +513,12 @@ TAStep(ev) ==
       live == {h \in tr_st : ~h.stop}
       \* deviations that change only what later events can see are tried even when ECMA-262 explains this event
       Hidden == IF ev.op = "subarray" THEN SUBSET rel ELSE {{}}
-      Ok(h, D) == LET x == TA!Step(ev, h.ts, D) IN TAMatches(obs, x) \/ (x.opaque # "" /\ InFamily(obs.out))
-      Plain == {<<h, D>> \in live \X Hidden : Ok(h, D)}
-      Good == IF \E p \in Plain : p[2] = {} THEN Plain ELSE {<<h, D>> \in live \X SUBSET rel : Ok(h, D)}
-      New == {LET x == TA!Step(ev, p[1].ts, p[2])
-              IN [devs |-> p[1].devs \cup p[2] \cup (IF TAMatches(obs, x) THEN {} ELSE {x.opaque}), ts |-> x.ts, stop |-> ~TAMatches(obs, x)] : p \in Good}
+      \* one evaluation of the model's step and of the comparison per (hypothesis, deviation set): [h, D, x = the step, m = it matches]
+      Try(DS) == {LET x == TA!Step(ev, h.ts, D) IN [h |-> h, D |-> D, x |-> x, m |-> TAMatches(obs, x)] : h \in live, D \in DS}
+      Ok(c) == c.m \/ (c.x.opaque # "" /\ InFamily(obs.out))
+      Plain == {c \in Try(Hidden) : Ok(c)}
+      Good == IF \E c \in Plain : c.D = {} THEN Plain ELSE {c \in Try(SUBSET rel) : Ok(c)}
+      New == {[devs |-> c.h.devs \cup c.D \cup (IF c.m THEN {} ELSE {c.x.opaque}), ts |-> c.x.ts, stop |-> ~c.m] : c \in Good}
              \cup {h \in tr_st : h.stop}
       anyh == CHOOSE h \in live : \A g \in live : Cardinality(h.devs) <= Cardinality(g.devs)
       ref == TA!Step(ev, anyh.ts, {})
